@@ -274,6 +274,8 @@ def relevant(prop, f):
         return 'status' in parts and ('Complete' in f.get('real', '') or 'Complete' in f.get('expected', ''))
     if 'stability' in parts:
         return prop == 'C02'
+    if prop == 'C02' and ro == 'Partial' and eo == 'Partial' and any(x in parts for x in ('method', 'path', 'version', 'code', 'reason')):
+        return True          # a start-line field reported alongside Partial that is not the one the final result will have
     if prop in ('C02', 'C11'):
         # a status disagreement where one side says Partial: Partial is returned although the oracle already decides, or vice versa
         return 'status' in parts and ((ro == 'Partial') != (eo == 'Partial'))
